@@ -587,6 +587,60 @@ pub fn boundary_sets() -> Vec<(String, [Cid; 7])> {
 }
 
 // ---------------------------------------------------------------------------------------------
+// C07 call histories: the category reported for a hand must not depend on which hand was asked
+// about before (on the same thread).  One representative 7-card set per reachable power index;
+// cases = (representative of the previous call, current index).
+
+pub fn reachable_representatives() -> Vec<[Cid; 7]> {
+    // one set per reference class, found by scanning rank multisets / flush masks (slot complete)
+    let t = table();
+    let mut rep: std::collections::BTreeMap<u16, [Cid; 7]> = std::collections::BTreeMap::new();
+    for ms in rank_multisets() {
+        for l in 0..3u8 {
+            let s = lay_out(&ms, l);
+            rep.entry(t.class7(&s)).or_insert(s);
+        }
+    }
+    for m in flush_masks() {
+        for su in 0..4u8 {
+            let s = flush_set(m, su, 0);
+            rep.entry(t.class7(&s)).or_insert(s);
+        }
+    }
+    rep.into_values().collect()
+}
+
+pub fn check_history(c: &(Vec<u8>, Vec<u8>)) -> CheckResult {
+    vensure!(c.0.len() == 7 && c.1.len() == 7, "bad-case", "need two 7-card sets");
+    let t = table();
+    let prev: [Cid; 7] = c.0.clone().try_into().unwrap();
+    let cur: [Cid; 7] = c.1.clone().try_into().unwrap();
+    let (wp, wc) = (t.class7(&prev), t.class7(&cur));
+    let hp = eval(&prev);
+    let hc = eval(&cur);
+    // history: ask about `prev` first, then about `cur`
+    let gp = format!("{:?}", hp.hand_type());
+    let gc = format!("{:?}", hc.hand_type());
+    let (ep, ec) = (CAT_NAMES[t.cat_of_class(wp) as usize], CAT_NAMES[t.cat_of_class(wc) as usize]);
+    vensure!(gp == ep, format!("category:{}:{}", wp, gp), "cards {} report category {}, the best five-card hand is {}", cnames(&prev), gp, t.describe(wp));
+    vensure!(
+        gc == ec,
+        format!("category-after-history:{}:{}", wc, gc),
+        "cards {} report category {} when hand_type() was called for {} ({}) just before on the same thread; the best five-card hand is {}",
+        cnames(&cur),
+        gc,
+        cnames(&prev),
+        gp,
+        t.describe(wc)
+    );
+    // and the answer for `cur` is stable when asked again
+    let again = format!("{:?}", hc.hand_type());
+    vensure!(again == ec, format!("category-second-call:{}:{}", wc, again), "cards {}: second hand_type() call reports {}", cnames(&cur), again);
+    Ok(Outcome::new(true, fp_of(&(set_fp(&prev), set_fp(&cur))), 1u64 << t.cat_of_class(wc) | if t.cat_of_class(wp) != t.cat_of_class(wc) { 1 << 9 } else { 0 }))
+}
+const HISTORY_CLASSES: &[&str] = &["HighCard", "Pair", "TwoPair", "Trips", "Straight", "Flush", "FullHouse", "Quads", "StraightFlush", "previous_call_other_category"];
+
+// ---------------------------------------------------------------------------------------------
 // full enumeration of all C(52,7) sets (thorough): hot loop run here, reported through the ctx
 
 pub fn run_all_sets(ctx: &mut Ctx, mode: Mode, shuffles: usize) {
@@ -598,6 +652,10 @@ pub fn run_all_sets(ctx: &mut Ctx, mode: Mode, shuffles: usize) {
         for b in (a + 1)..47u8 {
             tasks.push((a, b));
         }
+    }
+    let stride = (1.0 / env_scale()).round().max(1.0) as usize;
+    if stride > 1 {
+        tasks = tasks.into_iter().step_by(stride).collect();
     }
     let next = AtomicU64::new(0);
     let stop = AtomicBool::new(false);
@@ -714,7 +772,7 @@ pub fn run_all_sets(ctx: &mut Ctx, mode: Mode, shuffles: usize) {
     let pick: Vec<usize> = if samples.len() > 5 { vec![0, 1, samples.len() / 2, samples.len() - 2, samples.len() - 1] } else { (0..samples.len()).collect() };
     let sv: Vec<Value> = pick.iter().map(|i| json!({"set": cnames(&samples[*i].1), "reference_class": samples[*i].2})).collect();
     ctx.extra.insert("all_sets_distinct_power_indexes".into(), json!(distinct_idx));
-    if complete && (n != 133_784_560 || distinct_idx != 4824) {
+    if complete && stride == 1 && (n != 133_784_560 || distinct_idx != 4824) {
         ctx.unhealthy.push(format!("full enumeration covered {} sets / {} classes, expected 133784560 / 4824", n, distinct_idx));
     }
     ctx.record_stream(
@@ -722,7 +780,7 @@ pub fn run_all_sets(ctx: &mut Ctx, mode: Mode, shuffles: usize) {
         "enumeration",
         n,
         n,
-        complete,
+        complete && stride == 1,
         classes,
         sv,
         t0.elapsed().as_secs_f64(),
@@ -742,7 +800,7 @@ pub fn run(ctx: &mut Ctx, mode: Mode) {
             ctx.rule = "sets: every 7-card rank multiset (all 49,205 no-flush table slots) in 3 flush-free suit layouts, every 5/6/7-bit suit mask (all 4,719 flush slots) in each suit with 2 fills, proptest category-targeted + uniform sets; each set is evaluated ascending, descending, (if a suit has >=5 cards) suited-first / suited-last / 4 suited-offsuit-rest orders and seeded shuffles; a sample of sets in all 5,040 orders; pairs of hands sharing a board (mirrored hole cards for ties) compared with ==,<,partial_cmp,cmp; all C(52,7) = 133,784,560 sets in both tiers (1 seeded shuffle quick, 12 thorough). Oracle: class of the best of the 21 five-card subsets under a from-the-rules classifier (self-checked: 7,462 classes, per-category counts). Every case is non-trivial; distinct = distinct sets (pairs: distinct pairs).".into();
         }
         Mode::Category => {
-            ctx.rule = "same set generators as C01 (slot-complete enumeration, flush masks, targeted random sets, all C(52,7) sets) plus the strongest and weakest hand of every category embedded in 7 cards; oracle: Debug name of hand_type() == category of the reference class of the best five-card hand. Every case non-trivial; distinct = distinct sets.".into();
+            ctx.rule = "same set generators as C01 (slot-complete enumeration, flush masks, targeted random sets, all C(52,7) sets) plus the strongest and weakest hand of every category embedded in 7 cards; call histories: for one representative of each of the 4,824 reachable power indexes, hand_type() right after a hand_type() call for the strongest / weakest reachable hand of every category (every (previous category boundary, current index) pair); oracle: Debug name of hand_type() == category of the reference class of the best five-card hand. Every case non-trivial; distinct = distinct sets.".into();
         }
     }
     ctx.assumptions = vec![
@@ -788,6 +846,23 @@ pub fn run(ctx: &mut Ctx, mode: Mode) {
             },
         );
         ctx.extra.insert("boundary_cases".into(), json!(b.iter().map(|(n, s)| format!("{}: {}", n, cnames(s))).collect::<Vec<_>>()));
+        // call histories: every reachable index after a call for a hand of every category
+        // (strongest and weakest reachable class of each category as the previous hand)
+        let reps = reachable_representatives();
+        let prevs: Vec<[Cid; 7]> = b.iter().map(|x| x.1).collect();
+        let n = (reps.len() * prevs.len()) as u64;
+        ctx.extra.insert("history_representatives".into(), json!(reps.len()));
+        if reps.len() != 4824 {
+            ctx.unhealthy.push(format!("{} representatives for the 4,824 reachable power indexes", reps.len()));
+        }
+        ctx.run_enum_brief(
+            StreamCfg::new("call_histories", HISTORY_CLASSES, n),
+            n,
+            true,
+            |i| (prevs[i as usize % prevs.len()].to_vec(), reps[i as usize / prevs.len()].to_vec()),
+            check_history,
+            |c| json!(format!("hand_type({}) then hand_type({})", cnames(&c.0), cnames(&c.1))),
+        );
     }
     // (c) random / targeted sets
     let cases = tier.pick(3_000_000, 20_000_000);
@@ -808,7 +883,7 @@ pub fn run(ctx: &mut Ctx, mode: Mode) {
     }
     // (f) everything
     run_all_sets(ctx, mode, tier.pick(1, 12));
-    ctx.exhaustive = !ctx.failed();
+    ctx.exhaustive = !ctx.failed() && env_scale() >= 1.0;
     ctx.extra.insert("exhaustive_over".into(), json!("all C(52,7) = 133,784,560 seven-card sets (stream all_sets); presentation orders are sampled: ascending, descending, the flush-scan adversarial orders and seeded shuffles for every set, all 5,040 orders for the sets of stream all_5040_orders"));
 }
 
@@ -816,6 +891,7 @@ pub fn replay(mode: Mode, stream: &str, path: &str, case: &Value) -> i32 {
     let prop = mode.prop();
     match stream {
         "hand_pairs" => replay_case::<PairCase>(prop, path, case, check_pair),
+        "call_histories" => replay_case::<(Vec<u8>, Vec<u8>)>(prop, path, case, check_history),
         "all_5040_orders" => replay_case::<Vec<u8>>(prop, path, case, check_all_orders),
         _ => replay_case::<Vec<u8>>(prop, path, case, check_set_case(mode, 3)),
     }
